@@ -120,6 +120,21 @@ class SymArray:
         return SymArray(out, dtype)
 
     def _bin(self, op, other, rev=False):
+        # numpy: arithmetic between two boolean operands stays boolean -- "+" is logical or, "*" logical and,
+        # "-" is a TypeError; only a non-boolean operand promotes to int / float
+        def is_boolish(x):
+            if isinstance(x, SymArray):
+                return x.dtype is not None and numpy.dtype(x.dtype).kind == "b"
+            if is_sym(x):
+                return x.ty is bool and x.dyn is None
+            return isinstance(x, (bool, numpy.bool_))
+        if self.dtype is not None and numpy.dtype(self.dtype).kind == "b" and is_boolish(other) and isinstance(op, (ast.Add, ast.Mult, ast.Sub)):
+            if isinstance(op, ast.Sub):
+                R.CTX.err(True, "TypeError(numpy boolean subtract)")
+                raise R.PathEnd()
+            f = z3.Or if isinstance(op, ast.Add) else z3.And
+            return self._ew(other, lambda a, b: Sym(f(truth(a), truth(b)), bool) if (is_sym(a) or is_sym(b)) else
+                            ((bool(a) or bool(b)) if isinstance(op, ast.Add) else (bool(a) and bool(b))), bool)
         if rev:
             return self._ew(other, lambda a, b: R.binop(op, b, a))
         return self._ew(other, lambda a, b: R.binop(op, a, b))
